@@ -158,7 +158,7 @@ def exp (A : BMat) : BMat := Id.run do
   let As := A.shr s
   let mut term := ident A.n
   let mut sum := ident A.n
-  for k in [1:70] do
+  for k in [1:45] do
     term := (term.mul As).divNat k
     sum := sum.add term
   let mut R := sum
@@ -182,7 +182,7 @@ def jacSeries (X : BMat) : BMat := Id.run do
   -- series at the scaled argument
   let mut term := ident X.n       -- (−Xs)^k / (k+1)!  built incrementally: t_k = t_{k-1}·(−Xs)/(k+1)
   let mut sum := ident X.n
-  for k in [1:70] do
+  for k in [1:45] do
     term := ((term.mul Xs).neg).divNat (k + 1)
     sum := sum.add term
   -- undo the scaling: J(2Y) = ½ (1 + exp(−Y)) J(Y)
@@ -193,6 +193,33 @@ def jacSeries (X : BMat) : BMat := Id.run do
     J := ((ident X.n).add E).mul J |>.shr 1
     Y := ofFn Y.n (fun i j => 2 * Y.get i j)
   return J
+
+/-- Gauss–Jordan inverse in fixed point with partial pivoting (largest magnitude) -/
+def inverse (A : BMat) : Option BMat := Id.run do
+  let n := A.n
+  let mut M : Array (Array Int) := Array.ofFn (n := n) (fun i =>
+    Array.ofFn (n := 2 * n) (fun j => if j.val < n then A.get i.val j.val else if j.val - n == i.val then BigFix.one else 0))
+  for c in [0:n] do
+    let mut p := c
+    let mut best : Nat := 0
+    for r in [c:n] do
+      let v := ((M[r]!)[c]!).natAbs
+      if v > best then
+        p := r; best := v
+    if best == 0 then return none
+    let rowp := M[p]!
+    let rowc := M[c]!
+    M := (M.set! p rowc).set! c rowp
+    let piv := (M[c]!)[c]!
+    let prow := (M[c]!).map (fun (x : Int) => (x * ((2 ^ FB : Nat) : Int)) / piv)
+    M := M.set! c prow
+    for r in [0:n] do
+      if r != c then
+        let f := (M[r]!)[c]!
+        if f != 0 then
+          let nr := Array.ofFn (n := 2 * n) (fun j => (M[r]!)[j.val]! - ((f * prow[j.val]!) >>> FB))
+          M := M.set! r nr
+  return some (ofFn n (fun i j => (M[i]!)[n + j]!))
 end BMat
 
 end Oracle
